@@ -13,12 +13,12 @@ META = {
     "level": "exploration",
     "technique": "online monotonicity monitor at every kernel-quiescent hook call, time-advance signal, activity signal and actor call "
                  "boundary + offline checker of the recorded stream against the dates the program asked for",
-    "level_text": "Generated programs (1-5 actors on 1-3 hosts, child actors, maestro driving the run with run_until) mix sleep_for / "
+    "level_text": "Generated programs (1-6 actors on 1-3 hosts, child actors, maestro driving the run with run_until) mix sleep_for / "
                   "sleep_until with durations 0, negative, below / at / one ulp around precision/timing, decimal fractions whose sums are "
-                  "not representable (0.1+0.2 vs 0.3), thirds, 1e9 and 1e15 (absorption), kernel timers set by actors and by maestro (at "
-                  "the current date, at dates reached in two ways), kill times given at creation or set later, execs / mailbox comms / "
-                  "disk I/Os started, tested and waited (0-sized included), host speed profiles, under cpu/optim and network/optim "
-                  "Lazy/Full, three values of precision/timing and ptask_L07. Every record carries Engine::get_clock() and the records of "
+                  "not representable (0.1+0.2 vs 0.3), thirds, 1e9 and 1e15 (absorption), kernel timers set by actors, by maestro and by "
+                  "timer callbacks (at the current date, at dates reached in two ways), kill times given at creation or set later, execs / "
+                  "mailbox comms / disk I/Os started, tested and waited (0-sized included), host speed profiles, under cpu/optim "
+                  "Lazy/Full/TI, network/optim Lazy/Full, three values of precision/timing and ptask_L07. Every record carries Engine::get_clock() and the records of "
                   "a run form one total order. Demanded: the clock never decreases from one observation to the next (hook calls "
                   "included, checked online), it changes only through on_time_advance(delta) with delta >= 0 and clock == previous + "
                   "delta; no timer is overdue at a quiescent point; a timer fires once, never before its date and at most a few ulps "
@@ -35,7 +35,7 @@ META = {
                   "run_until(t) returning up to 1e-5 s before t when nothing is left to run at that moment (counted), set_kill_time with a "
                   "date that is not in the future (ignored by SimGrid, not generated), durations of execs/comms/I/Os (C20), timed waits "
                   "(C12). set_kill_time is never issued twice on one actor (C11's stale-timer finding). No failures, no suspend. "
-                  "Sequential actor execution (contexts/nthreads:1); the asan leg runs a tenth of the programs on thread contexts.",
+                  "Sequential actor execution (contexts/nthreads:1); the asan leg runs the directed programs and a fifteenth of the generated ones, on thread contexts (ASan loses track of the raw-context stacks when exceptions unwind them).",
     "rule": "case = one generated program under one configuration; non-trivial = distinct programs whose stream was fully checked and "
             "contains at least one checked positive sleep and at least one of: two sources with an event at the same positive date, a "
             "fired timer, a kill time reached",
@@ -134,6 +134,9 @@ def directed():
     # minimal witness of the open finding C03:clock-decreased:after-profile-event-callback: speed event at 0.45 on a host that is
     # computing since 0.1 (0.1 + (0.45 - 0.1) rounds below 0.45)
     out.append(_sc([("h0", None, ["s:0.1", "x:1e9"])], hosts=[{"name": "h0", "speed": 1e9, "profile": [[0.45, 0.5]]}]))
+    # minimal witness of the open finding C03:crash:kill-time-armed-on-actor-ending-in-the-same-round
+    # (a1 wakes first and issues the call while a0 is still alive; a0 then wakes and ends in the same scheduling round)
+    out.append(_sc([("h0", None, ["s:1.0"]), ("h0", None, ["s:1.0", "k:0:3.0", "s:5.0"])]))
     # chained timers: the callback of a timer sets another one for the same date / 1e-12 later
     out.append(_sc([("h0", None, ["tr:0.1:c0:0.0", "t:0.2:c1:1e-12", "s:0.1", "tr:0.0:c2:0.0", "s:1.0"]), ("h0", 0.2, ["s:0.2", "s:1.0"])],
                    cfg={"cpu_optim": "TI"}))
@@ -153,7 +156,7 @@ def run_leg(ctx, fl, items, workers=None, tamper=None):
 
 
 def run(ctx):
-    n = ctx.size(700, 24000)
+    n = ctx.size(600, 24000)
     for fl in ("hooks", "asan"):
         exe(fl)
     dirs = [("d%d" % i, sc, "directed %d" % i) for i, sc in enumerate(directed())]
@@ -162,7 +165,7 @@ def run(ctx):
     ctx.sample({"program": clockprog.to_text(gens[0][1], "g0")})
     jobs = int(os.environ.get("VERIF_JOBS", core.NCPU))
     err = []
-    asan_items = dirs + gens[:max(6, n // 10)]
+    asan_items = dirs + gens[:max(6, n // 15)]
 
     def asan_leg():
         try:
